@@ -1,6 +1,7 @@
 package props
 
 import (
+	"go/constant"
 	"fmt"
 	"go/ast"
 	"go/token"
@@ -31,6 +32,7 @@ func C14(c *core.Ctx) {
 	c14Pow(c)
 	c14NilElems(c)
 	c14NilPointers(c)
+	c14DocNilElems(c)
 }
 
 // nilSafeReceiver decides whether every dereference of the receiver in a
@@ -279,6 +281,7 @@ func c14Normalize(c *core.Ctx) {
 		return fn
 	}
 	sites := 0
+	skipsNil := c14NormalizeSkipsNil(p)
 	for _, fd := range p.AllFuncs() {
 		info := fd.Pkg.TypesInfo
 		var ff *core.FuncFlow
@@ -313,6 +316,11 @@ func c14Normalize(c *core.Ctx) {
 			key := fmt.Sprintf("%s#Normalize(%s)", fd.Name(), types.ExprString(arg))
 			if fn == nil {
 				// no Normalize method: tax.Normalize falls back to list.Each(doc) which only passes the value on
+				c.Ob("C14-R1", key, call.Pos(), true, "")
+				continue
+			}
+			if skipsNil {
+				// tax.Normalize itself returns for a nil pointer before it calls anything on it
 				c.Ob("C14-R1", key, call.Pos(), true, "")
 				continue
 			}
@@ -376,6 +384,85 @@ func c14Normalize(c *core.Ctx) {
 		}
 	}
 	c.Extra("tax_normalize_call_sites", sites)
+}
+
+// c14NormalizeSkipsNil: tax.Normalize, evaluated for an argument that is a nil
+// pointer inside a non-nil interface (what an element of a slice of pointers
+// is), returns before it calls or hands on anything: reflect.ValueOf(doc) is of
+// kind pointer and IsNil.
+func c14NormalizeSkipsNil(p *core.Program) bool {
+	fd := p.Func("tax", "", "Normalize")
+	if fd == nil {
+		return false
+	}
+	info := fd.Pkg.TypesInfo
+	sig := fd.Obj.Type().(*types.Signature)
+	if sig.Params().Len() != 2 {
+		return false
+	}
+	doc := sig.Params().At(1)
+	ptrKind := int64(-1)
+	if rp := reflectConst("Ptr"); rp >= 0 {
+		ptrKind = rp
+	}
+	called := false
+	ev := &core.AbsEval{Info: info}
+	ev.Atom = func(e ast.Expr) (any, bool) {
+		e = ast.Unparen(e)
+		switch x := e.(type) {
+		case *ast.BinaryExpr:
+			if x.Op == token.EQL || x.Op == token.NEQ {
+				l, r := ast.Unparen(x.X), ast.Unparen(x.Y)
+				if core.IsNil(info, l) {
+					l, r = r, l
+				}
+				if core.IsNil(info, r) && core.VarOf(info, l) == doc {
+					return x.Op == token.NEQ, true // the interface itself is not nil
+				}
+			}
+		case *ast.CallExpr:
+			fn := core.Callee(info, x)
+			if fn == nil || fn.Pkg() == nil || fn.Pkg().Path() != "reflect" {
+				return nil, false
+			}
+			switch fn.Name() {
+			case "ValueOf":
+				if len(x.Args) == 1 && core.VarOf(info, x.Args[0]) == doc {
+					return "reflect-value-of-doc", true
+				}
+			case "Kind", "IsNil":
+				if rv, ok := ev.Eval(core.RecvExpr(x)); ok && rv == any("reflect-value-of-doc") {
+					if fn.Name() == "IsNil" {
+						return true, true
+					}
+					return ptrKind, ptrKind >= 0
+				}
+			}
+		}
+		return nil, false
+	}
+	ev.Effect = func(*ast.CallExpr) bool { called = true; return true }
+	_, reached := ev.Run(fd.Decl.Body)
+	return reached && !called
+}
+
+// reflectConst gives the value of reflect.<name> (a Kind constant).
+func reflectConst(name string) int64 {
+	if subject == nil {
+		return -1
+	}
+	for _, pk := range subject.Pkgs {
+		for _, imp := range pk.Imports {
+			if imp.PkgPath == "reflect" && imp.Types != nil {
+				if c, ok := imp.Types.Scope().Lookup(name).(*types.Const); ok {
+					if v, ok := constant.Int64Val(c.Val()); ok {
+						return v
+					}
+				}
+			}
+		}
+	}
+	return -1
 }
 
 func c14RemoveInRange(c *core.Ctx) {
